@@ -10,6 +10,20 @@ BASE_NOTE = ('Trusted: Lean 4.33 kernel (axioms propext, Classical.choice, Quot.
              'equality with the code is checked on exactly representable inputs). ')
 
 CLAIMED = {
+    'C19': dict(
+        text=('Lean model of the ICARTT (ffi1001) writer and of the position-driven reader at the level of typed lines. Theorems '
+              'for ALL well-formed files (any number of records, variables, attributes): the header-line count declared on line 1 '
+              'is the position of the column-name line and the data follow it (header_count); the declared number of dependent '
+              'variables, codes, description lines and user comments equal the actual ones (declared_counts); read(write f) = f '
+              'with names in order, units, missing codes, masks and values (read_write, mask_preserved); a second write/read '
+              'cycle returns the same data (second_cycle); wrong_count_rejected shows the count is load-bearing. Correspondence: '
+              'the text written by the library is tokenised by an independent parser and compared line by line with the writer '
+              'model, the library reader (explicit and auto-detected) with the reader model; numeric oracle for 7 significant '
+              'digits. Three genuine defects repaired by fix: commits (independent-variable unit, missing codes written with %.6e, '
+              'l100.isMine claiming short text files).'),
+        note=BASE_NOTE + 'the text of a number (%.6e) and numpy.genfromtxt parsing are outside the model (numeric oracle on every value); attribute values without line breaks; special-comment blocks (never written by the library) are not modelled.',
+        technique='Lean 4 proof (list indexing over the six segments of the output, induction-free mapM lemmas) + model/implementation correspondence + numeric oracle',
+        design='§7 C19'),
     'C20': dict(
         text=('Lean theorems over Q for the pack2d/unpack algorithm (half-step bound and no wrap-around when all '
               'neighbour differences are <= 127 steps, unpack inverts pack, first element exact, checksum), '
